@@ -100,15 +100,20 @@ func UnTarIndex(ctx context.Context, fs FilesystemWriter, index Index, s Store, 
 	// Feeder - requesting chunks from the workers and handing a result data channel
 	// to the assembler
 	g.Go(func() error {
+		// Not handing out all chunks must not look like success. If another
+		// goroutine failed, its error is the one returned by the group.
+		var feedErr error
 	loop:
 		for _, c := range index.Chunks {
 			data := make(chan []byte, 1)
 			select {
 			case <-ctx.Done():
+				feedErr = Interrupted{}
 				break loop
 			case req <- requestJob{chunk: c, data: data}: // request the chunk
 				select {
 				case <-ctx.Done():
+					feedErr = Interrupted{}
 					break loop
 				case assemble <- data: // and hand over the data channel to the assembler
 				}
@@ -116,7 +121,7 @@ func UnTarIndex(ctx context.Context, fs FilesystemWriter, index Index, s Store, 
 		}
 		close(req)      // tell the workers this is it
 		close(assemble) // tell the assembler we're done
-		return nil
+		return feedErr
 	})
 
 	// Assember - Read from data channels push the chunks into the pipe that untar reads from
@@ -135,7 +140,9 @@ func UnTarIndex(ctx context.Context, fs FilesystemWriter, index Index, s Store, 
 					return err
 				}
 			case <-ctx.Done():
-				break loop
+				// Closing the pipe makes untar see the end of the archive, which
+				// it isn't. Make sure this doesn't end up being reported as success.
+				return Interrupted{}
 			}
 		}
 		return nil
